@@ -8,7 +8,7 @@ from vf.refpeg import Ref
 
 PROPERTY = 'C11'
 RULE = ('generated grammars (C01 generator) in which some token leaves are replaced by calls to an @name rule `ident` (bodies: /[a-c]+/, '
-        '/[a-cA-C]+/, /\\w+/, @name, a choice of tokens) so that it occurs in choices, closures, lookaheads and after optionals; 1-3 keywords '
+        '/[a-cA-C]+/, /\\w+/, @name, a choice of tokens) so that it occurs in choices, closures, lookaheads and after optionals; 1-3 keywords (a quarter of the cases: 9-33 keywords, so that the keyword list spans several lines in pretty() and in generated code) '
         '(bare words and quoted strings, any case); @@ignorecase on/off or ignorecase= at parse time; inputs derived from the grammar with '
         'identifier lexemes drawn from keywords, keyword prefixes/suffixes, case variants and ordinary names. Oracles: RefPEG with the '
         'documented rule (after the @name rule\'s body succeeds, fail if str(value), upper-cased under ignorecase, is a keyword); a collecting '
@@ -177,6 +177,14 @@ def make_case(rnd):
     rules.append((iname, body))
     nk = rnd.randint(1, 3)
     keywords = rnd.sample(['a', 'ab', 'c', 'AB', 'b', 'abc', 'Ca'], nk)
+    if rnd.random() < 0.25:
+        # a long keyword list (printed and generated over several lines)
+        letters = 'abc'
+        extra = set()
+        for _ in range(rnd.randint(8, 30)):
+            extra.add(''.join(rnd.choice(letters) for _ in range(rnd.randint(3, 8))))
+        keywords = keywords + sorted(extra - set(keywords))
+        rnd.shuffle(keywords)
     ic_directive = rnd.random() < 0.3
     ic_parse = (not ic_directive) and rnd.random() < 0.25
     return rules, keywords, ic_directive, ic_parse
